@@ -7,6 +7,9 @@ ids=("$@"); [ ${#ids[@]} -eq 0 ] && ids=($(ls -d seeded/C*-* | xargs -n1 basenam
 PAR=${PAR:-2}
 one() {
   id=$1; prop=${id%%-*}
+  # evaluated less than SKIP_MIN minutes ago (another batch): skip
+  if [ -n "${SKIP_MIN:-}" ] && [ -n "$(find seeded/$id/eval.txt -mmin -$SKIP_MIN 2>/dev/null)" ]; then return; fi
+  [ -n "${SKIP_MIN:-}" ] && touch seeded/$id/eval.txt
   extra=$(python3 - "$id" <<'PY'
 import json,sys,os
 p='/verif/seeded/%s/meta.json'%sys.argv[1]
